@@ -919,6 +919,9 @@ def register_read_graph_l_lines(reg):
         "n2": "lambda t: fields_of(rstrip_crlf(edges[t]))[3]", "o2": "lambda t: fields_of(rstrip_crlf(edges[t]))[4]",
         "ovl": "lambda t: int(str_drop_last(fields_of(rstrip_crlf(edges[t]))[5]))",
         "s1": "lambda t: ite(fields_of(rstrip_crlf(edges[t]))[2] == '+', 1, 0)", "s2": "lambda t: ite(fields_of(rstrip_crlf(edges[t]))[4] == '+', 0, 1)",
+        "key": "lambda t: (fields_of(rstrip_crlf(edges[t]))[1], ite(fields_of(rstrip_crlf(edges[t]))[2] == '+', 1, 0), "
+               "fields_of(rstrip_crlf(edges[t]))[3], ite(fields_of(rstrip_crlf(edges[t]))[4] == '+', 0, 1))",
+        "notags": "lambda t: len(fields_of(rstrip_crlf(edges[t]))) == 6",
         "present": "lambda t: fields_of(rstrip_crlf(edges[t]))[1] in self.nodes and fields_of(rstrip_crlf(edges[t]))[3] in self.nodes",
         # membership in the adjacency set of side sa of node a (an ite over the two membership tests, not over the two sets)
         "inadj": "lambda g, a, sa, b, sb, ov: ite(sa == 1, (b, sb, ov) in g.nodes[a].end, (b, sb, ov) in g.nodes[a].start)",
@@ -935,6 +938,11 @@ def register_read_graph_l_lines(reg):
                                                "((n1(src[(a, sa, b, sb, ov)]) == a and s1(src[(a, sa, b, sb, ov)]) == sa and n2(src[(a, sa, b, sb, ov)]) == b and s2(src[(a, sa, b, sb, ov)]) == sb) or "
                                                "(n2(src[(a, sa, b, sb, ov)]) == a and s2(src[(a, sa, b, sb, ov)]) == sa and n1(src[(a, sa, b, sb, ov)]) == b and s1(src[(a, sa, b, sb, ov)]) == sb))))",
         "link-tags-only-for-existing-links": TAGS_INV.format(g="self"),
+        # the tags kept for a declared link are the tag columns of the LAST L line with that key, or the [0] sentinel when that line has none
+        "link-tags-are-the-lines-tag-columns": "forall(lambda t: implies(0 <= t < it1 and present(t), key(t) in self.edge_tags and t <= lastl[key(t)] < it1 and "
+                                               "present(lastl[key(t)]) and key(lastl[key(t)]) == key(t) and "
+                                               "ite(notags(lastl[key(t)]), len(self.edge_tags[key(t)]) == 1 and self.edge_tags[key(t)][0] == 0, "
+                                               "same(self.edge_tags[key(t)], G(lastl[key(t)])[6:]))))",
     }
     inv.update(_wfd("self", ""))
     reg.add(Contract(
@@ -942,13 +950,13 @@ def register_read_graph_l_lines(reg):
         params=dict(self=GFAT, edges=ListT(STR)), modifies=["self"], returns=NONE, module_env={"E_DIR": E_DIR_value},
         types=dict(STR=STR, INT=INT, EKEY=EdgeKey),
         ufuns={"fields_of": ([STR], LINE), "rstrip_crlf": ([STR], STR), "str_drop_last": ([STR], STR)},
-        ghost=dict(src=MapT(E5, INT), tagov=MapT(EdgeKey, INT)), locals=dict(e_tags=ListT(STR)), spec_funcs=M,
+        ghost=dict(src=MapT(E5, INT), tagov=MapT(EdgeKey, INT), lastl=MapT(EdgeKey, INT)), locals=dict(e_tags=ListT(STR)), spec_funcs=M,
         raises={"AssertionError": "*"},
         requires=wf("self") + [TAGS_INV.format(g="self"),
                                # valid L lines: six columns at least, orientations are + or -
                                "forall(lambda t: implies(0 <= t < len(edges), len(G(t)) >= 6 and (o1(t) == '+' or o1(t) == '-') and (o2(t) == '+' or o2(t) == '-')))"],
         ghost_at={"after:self.add_edge(": "src[(n1(it1 - 1), s1(it1 - 1), n2(it1 - 1), s2(it1 - 1), ovl(it1 - 1))] = it1 - 1\n"
-                                                     "src[(n2(it1 - 1), s2(it1 - 1), n1(it1 - 1), s1(it1 - 1), ovl(it1 - 1))] = it1 - 1"},
+                                                     "src[(n2(it1 - 1), s2(it1 - 1), n1(it1 - 1), s1(it1 - 1), ovl(it1 - 1))] = it1 - 1\nlastl[key(it1 - 1)] = it1 - 1"},
         call_ghost={"GFA.add_edge": {"tagov": "tagov"}},
         loops={1: Loop(index="it1", fingerprint="for e in edges", invariant=inv, modifies=["tagov"],
                        pres_from={"links-only-grow": ["loop1:links-only-grow", "loop1:same-node-set", "GFA.add_edge:same-node-set",
@@ -958,7 +966,8 @@ def register_read_graph_l_lines(reg):
              "inadj(self, n1(t), s1(t), n2(t), s2(t), ovl(t)) and inadj(self, n2(t), s2(t), n1(t), s1(t), ovl(t))))"),
             ("links-already-there-are-kept", inv["links-only-grow"]),
             ("every-new-link-comes-from-an-l-line", inv["every-new-link-comes-from-an-l-line"].replace("< it1", "< len(edges)")),
-            ("link-tags-only-for-existing-links", TAGS_INV.format(g="self"))] + list(_wfd("self", "").items())),
+            ("link-tags-only-for-existing-links", TAGS_INV.format(g="self")),
+            ("link-tags-are-the-lines-tag-columns", inv["link-tags-are-the-lines-tag-columns"].replace("< it1", "< len(edges)"))] + list(_wfd("self", "").items())),
         notes="a malformed overlap (not <int>M) raises ValueError in the real code: int() is modelled as total, so that exit is not covered; "
               "L lines naming a missing segment are skipped",
     ))
